@@ -115,6 +115,12 @@ Definition books_step (pre p : post) : bool :=
   && (negb (p_supply pre =? b_amount (p_bk pre)) || (p_supply p =? b_amount (p_bk p)))
   && forallb (fun d => shortfall p d <=? shortfall pre d) (denoms_of p).
 
+(* no recorded figure is negative, in any basket: issued amount, every reserve, every surplus entry *)
+Definition nonneg (p : post) : bool :=
+  forallb (fun b => (0 <=? b_amount b) && forallb (fun t => 0 <=? t_amount t) (b_tokens b)
+                    && forallb (fun c => 0 <=? snd c) (b_surplus b)) (all_baskets p)
+  && (0 <=? p_supply p) && forallb (fun bs => 0 <=? snd bs) (p_sibs p).
+
 (* token caps: weight_i * reserve_i <= cap * total (up to the 10^-18 rounding of Dec.Mul) *)
 Definition caps_ok (b : basket) : bool :=
   forallb (fun t => t_weight t * t_amount t * PREC <=? value_of b * b_cap b + PREC) (b_tokens b).
@@ -177,6 +183,7 @@ Definition op_clauses (lg : logs) (o : op) (pre p : post) : list string :=
   let limits := if l_gen lg then "limits_after_genesis"%string else "limits"%string in
   let b := p_bk pre in let b' := p_bk p in
   cl (books_step pre p) "books" k ++
+  cl (negb (nonneg pre) || nonneg p) "nonneg" k ++
   cl (deficit p <=? deficit pre + allowance o pre p) "backed" k ++
   match o with
   | OMint now a dep =>
@@ -274,7 +281,7 @@ Fixpoint hist_clauses (lg : logs) (pre : post) (steps : list (op * Z * option po
   end.
 
 Definition case_clauses (c : c11_case) : list string :=
-  match c with C11Hist init steps => cl (books init) "books" "setup" ++ hist_clauses (mkL [] [] [] false) init steps end.
+  match c with C11Hist init steps => cl (books init) "books" "setup" ++ cl (nonneg init) "nonneg" "setup" ++ hist_clauses (mkL [] [] [] false) init steps end.
 
 Fixpoint dedup (l : list string) : list string :=
   match l with [] => [] | x :: r => if str_in x r then dedup r else x :: dedup r end.
